@@ -26,11 +26,15 @@ KINDS = [
     ("long-attrs-ascii", '<a class="dl" title="' + "t" * 700 + '" href="{H}">x</a>', True),
     ("text", "hello é &amp; &#x2F; world", False),
     ("name-only", '<a name="{H}">x</a>', False),
+    # what is white space, a word boundary or the same letter for str patterns only (the bytes patterns are ASCII)
+    ("nbsp-sep", '<a\u00a0href="{H}">x</a>', False),
+    ("long-s-script", '<\u017fcript><a href="{H}">x</a></\u017fcript>', True),
 ]
 HREFS = ["http://b.com/x", "https://b.com/y?a=1&amp;b=2", "//c.com/z", "rel/page", "../up", "?q=1", "#", "#frag", "javascript:void(0)",
          "mailto:x@y.com", "", " http://b.com/pad ", " http://b.com/nb ", "http://a.notatld/x", "http://a.com/base",
          "HTTP://A.com:80/base", "HTTP://B.COM/x", "http://b.com/a b", "http://b.com/é", "http://b.com&#x2F;e", "/abs#f",
-         "http://b.com/x#f", "&quot;q&quot;", "&nbsp;http://b.com/n", "/a/../b.html", "/dir/../base", "/./abs", "http://a.com/base#frag", "base#frag"]
+         "http://b.com/x#f", "&quot;q&quot;", "&nbsp;http://b.com/n", "/a/../b.html", "/dir/../base", "/./abs", "http://a.com/base#frag", "base#frag",
+         "&#32;http://b.com/e&#9;", "http://a.com/base&#32;"]
 BASES = ["http://a.com/base", "http://a.com/dir/", "http://a.com/base#frag", "HTTP://A.COM/base"]
 NPOS = 3
 KNAMES = [k for k, _, _ in KINDS]
@@ -57,7 +61,7 @@ def build(case):
             return None, None
         parts.append(t.replace("{H}", h))
         if anchor:
-            expected.append(std_html.unescape(h.strip()))
+            expected.append(std_html.unescape(h).strip())  # whitespace-stripped *and* unescaped: no white space is left around
     return "".join(parts), expected
 
 
